@@ -61,10 +61,11 @@ structure World (α : Type) where
   /-- the list traits on whose `name_items` event `_sync_trait_items_modified` is registered -/
   hooked : List Pair
 
-/-- Parameters: which trait names are `List` traits (`_is_list_trait`,
-has_traits.py:2794-2799), the validators, `==` on items and `list.sort`. -/
+/-- Parameters: which traits of which objects are `List` traits (`_is_list_trait`:
+a property of the object's class and the name; the same name may be a `List`
+trait on one object and not on another), the validators, `==` on items and `list.sort`. -/
 structure Env (α : Type) where
-  isList : Name → Bool
+  isList : Pair → Bool
   sv : Pair → Callback α α
   iv : Pair → Callback α α
   eq : α → α → Bool
@@ -98,12 +99,12 @@ the value, a `List` trait builds a new `TraitListObject` from a list, validating
 every item in order (`TraitList.__init__`); the wrong shape is a `TraitError`. -/
 def validate (E : Env α) (p : Pair) : AVal α → Except Exc (AVal α)
   | .s x =>
-    if E.isList p.2 then .error .traitError
+    if E.isList p then .error .traitError
     else match E.sv p 0 x with
       | .error e => .error e
       | .ok y => .ok (.s y)
   | .l xs =>
-    if E.isList p.2 then
+    if E.isList p then
       match valAll (E.iv p) 0 xs with
       | .error e => .error e
       | .ok ys => .ok (.l ys)
@@ -152,7 +153,7 @@ to the partners, provided `_sync_trait_items_modified` is registered on
 TypeError. -/
 def applyMutate (E : Env α) (w : World α) (p : Pair) (op : Op α) :
     Except Exc (World α × Option α × Option (Op α)) :=
-  if E.isList p.2 then
+  if E.isList p then
     match listStep (E.tl p) (w.list p) op with
     | .error e => .error e
     | .ok o =>
@@ -241,7 +242,7 @@ is registered with every `List` partner, whichever partner came first.  The
 entry and the handlers stay when the `setattr` raises. -/
 def World.register (E : Env α) (w : World α) (p q : Pair) : World α :=
   { w with edges := w.edges ++ [(⟨p, q⟩ : Edge)],
-           hooked := if E.isList p.2 && E.isList q.2 && !(decide (p ∈ w.hooked))
+           hooked := if E.isList p && E.isList q && !(decide (p ∈ w.hooked))
                      then p :: w.hooked else w.hooked }
 
 def World.linkOne [DecidableEq α] (E : Env α) (w : World α) (p q : Pair) : Res α :=
@@ -267,8 +268,8 @@ def World.unlinkOne (E : Env α) (w : World α) (p q : Pair) : World α :=
   if (⟨p, q⟩ : Edge) ∈ w.edges then
     let es := w.edges.filter (fun e => e ≠ (⟨p, q⟩ : Edge))
     { w with edges := es,
-             hooked := if E.isList p.2 && E.isList q.2 &&
-                          !(es.any (fun e => decide (e.src = p) && E.isList e.dst.2))
+             hooked := if E.isList p && E.isList q &&
+                          !(es.any (fun e => decide (e.src = p) && E.isList e.dst))
                        then w.hooked.filter (· ≠ p) else w.hooked }
   else w
 
